@@ -129,6 +129,7 @@ fn location_is_subject(loc: &str) -> bool {
         || loc.contains("ff_derive")
         || loc.contains("ff-zeroize")
         || loc.contains("curve_impl_extracted.rs")
+        || loc.ends_with("src/toy.rs") || loc.contains("src/toy.rs:")
         || loc.contains("/byteorder-")
 }
 
